@@ -312,6 +312,29 @@ theorem outer_now_le (s : St) : s.now ≤ (outer s).now := by
       have := timeDelta_nonneg _ _ _ _ hT hd
       split <;> (try split) <;> simp [timersLoop_now, popWindow_now] <;> grind
 
+/-- the clock never jumps over a pending timer: after `solve`, `now ≤` the date of every timer that was not in the past -/
+theorem outer_now_le_timer (s : St) (t : Timer) (ht : t ∈ s.k.timers) (hf : s.now ≤ t.date) :
+    (outer s).now ≤ t.date := by
+  unfold outer
+  simp only []
+  split
+  · exact hf
+  · split
+    · split <;> (try split) <;> simp [timersLoop_now] <;> exact hf
+    · rename_i d hd
+      cases hm : minDate (s.k.timers.map (·.date)) with
+      | none =>
+        have : (s.k.timers.map (·.date)) = [] := by
+          cases h : s.k.timers.map (·.date) with
+          | nil => rfl
+          | cons x xs => rw [h] at hm; unfold minDate at hm; split at hm <;> simp at hm
+        simp at this; rw [this] at ht; simp at ht
+      | some m =>
+        rw [hm] at hd
+        have h1 := timeDelta_le_timer _ _ _ _ hd
+        have h2 := minDate_le _ _ hm t.date (List.mem_map.mpr ⟨t, ht, rfl⟩)
+        split <;> (try split) <;> simp [timersLoop_now, popWindow_now] <;> grind
+
 theorem subround_now (s : St) : (subround s).now = s.now := by simp [subround]
 
 theorem step_now_le (s : St) : s.now ≤ (step s).now := by
@@ -442,5 +465,65 @@ theorem run_firedOnTime (n : Nat) (s : St) (h : FiredOnTime s) : FiredOnTime (ru
   induction n generalizing s with
   | zero => exact h
   | succ n ih => unfold run; exact ih _ (step_firedOnTime s h)
+
+/-! ### `upd` (in-place update of the impl / actor tables) -/
+
+theorem upd_length {α} (l : List α) (i : Nat) (f : α → α) : (upd l i f).length = l.length := by
+  induction l generalizing i with
+  | nil => rfl
+  | cons x xs ih => cases i <;> simp [upd, ih]
+
+theorem getD_upd_same {α} (l : List α) (i : Nat) (f : α → α) (d : α) (h : i < l.length) :
+    (upd l i f).getD i d = f (l.getD i d) := by
+  induction l generalizing i with
+  | nil => simp at h
+  | cons x xs ih =>
+    cases i with
+    | zero => simp [upd]
+    | succ n => simp [upd]; simpa using ih n (by simpa using h)
+
+theorem getD_upd_other {α} (l : List α) (i j : Nat) (f : α → α) (d : α) (h : i ≠ j) :
+    (upd l i f).getD j d = l.getD j d := by
+  induction l generalizing i j with
+  | nil => simp [upd]
+  | cons x xs ih =>
+    cases i with
+    | zero => cases j with
+      | zero => exact absurd rfl h
+      | succ m => simp [upd]
+    | succ n => cases j with
+      | zero => simp [upd]
+      | succ m => simp [upd]; simpa using ih n m (by omega)
+
+
+@[simp] theorem actor_setActor_same (k : K) (a : Nat) (f : Actor → Actor) (h : a < k.actors.length) :
+    (k.setActor a f).actor a = f (k.actor a) := by
+  unfold K.actor K.setActor; exact getD_upd_same _ _ _ _ h
+
+@[simp] theorem impl_setImpl_same (k : K) (i : Nat) (f : Impl → Impl) (h : i < k.impls.length) :
+    (k.setImpl i f).impl i = f (k.impl i) := by
+  unfold K.impl K.setImpl; exact getD_upd_same _ _ _ _ h
+
+@[simp] theorem impl_setActor (k : K) (a i : Nat) (f : Actor → Actor) : (k.setActor a f).impl i = k.impl i := rfl
+@[simp] theorem actor_setImpl (k : K) (a i : Nat) (f : Impl → Impl) : (k.setImpl i f).actor a = k.actor a := rfl
+@[simp] theorem setActor_actors_length (k : K) (a : Nat) (f : Actor → Actor) :
+    (k.setActor a f).actors.length = k.actors.length := by simp [K.setActor, upd_length]
+@[simp] theorem setImpl_actors (k : K) (i : Nat) (f : Impl → Impl) : (k.setImpl i f).actors = k.actors := rfl
+@[simp] theorem setImpl_impls_length (k : K) (i : Nat) (f : Impl → Impl) :
+    (k.setImpl i f).impls.length = k.impls.length := by simp [K.setImpl, upd_length]
+@[simp] theorem setActor_impls (k : K) (a : Nat) (f : Actor → Actor) : (k.setActor a f).impls = k.impls := rfl
+
+@[simp] theorem setActor_toRun (k : K) (a : Nat) (f : Actor → Actor) : (k.setActor a f).toRun = k.toRun := rfl
+@[simp] theorem setActor_bad (k : K) (a : Nat) (f : Actor → Actor) : (k.setActor a f).bad = k.bad := rfl
+@[simp] theorem setActor_heap (k : K) (a : Nat) (f : Actor → Actor) : (k.setActor a f).heap = k.heap := rfl
+@[simp] theorem setActor_timers (k : K) (a : Nat) (f : Actor → Actor) : (k.setActor a f).timers = k.timers := rfl
+@[simp] theorem setActor_failedQ (k : K) (a : Nat) (f : Actor → Actor) : (k.setActor a f).failedQ = k.failedQ := rfl
+@[simp] theorem setActor_doneQ (k : K) (a : Nat) (f : Actor → Actor) : (k.setActor a f).doneQ = k.doneQ := rfl
+@[simp] theorem setImpl_toRun (k : K) (i : Nat) (f : Impl → Impl) : (k.setImpl i f).toRun = k.toRun := rfl
+@[simp] theorem setImpl_bad (k : K) (i : Nat) (f : Impl → Impl) : (k.setImpl i f).bad = k.bad := rfl
+@[simp] theorem setImpl_heap (k : K) (i : Nat) (f : Impl → Impl) : (k.setImpl i f).heap = k.heap := rfl
+@[simp] theorem setImpl_timers (k : K) (i : Nat) (f : Impl → Impl) : (k.setImpl i f).timers = k.timers := rfl
+@[simp] theorem setImpl_failedQ (k : K) (i : Nat) (f : Impl → Impl) : (k.setImpl i f).failedQ = k.failedQ := rfl
+@[simp] theorem setImpl_doneQ (k : K) (i : Nat) (f : Impl → Impl) : (k.setImpl i f).doneQ = k.doneQ := rfl
 
 end SgVerif.TimeCore
